@@ -289,6 +289,10 @@ func (s *Seq) exec(op *Op) {
 		s.lightReads("reads")
 	case "sweep":
 		s.fullSweep("sweep")
+	case "repair":
+		s.opRepair()
+	case "misuse":
+		s.opMisuse(op)
 	case "getabsent":
 		s.opGetAbsent(op)
 	case "hold":
@@ -709,4 +713,59 @@ func (s *Seq) modelPut(lid int, r *shapes.Rec) {
 		s.History[lid] = map[string]bool{}
 	}
 	s.History[lid][model.JSON(r)] = true
+}
+
+// opRepair: Repair on a healthy collection (nothing pending) changes nothing
+// that can be observed: same objects, same search results, same constraints.
+func (s *Seq) opRepair() {
+	if !s.quiescent {
+		return
+	}
+	if err := s.db.Repair(rec0()); err != nil {
+		s.fail("repair", "healthy-repair-failed", "Repair on a healthy collection failed: %v", err)
+	}
+	if err := s.db.Control(); err != nil {
+		s.fail("repair", "control-fails-after-repair:healthy", "Control fails after Repair on a healthy collection: %v", err)
+	}
+	s.stat("probe:repair-on-healthy")
+	s.checkLayout("after-healthy-repair")
+	s.lightReads("after-healthy-repair")
+}
+
+// opMisuse: the documented misuse of an Assign target panics; the caller may
+// recover, and the handle must keep working (no lock stays held).
+func (s *Seq) opMisuse(op *Op) {
+	panicked := false
+	func() {
+		defer func() {
+			if r := recover(); r != nil {
+				if _, stop := r.(stopRun); stop {
+					panic(r)
+				}
+				panicked = true
+			}
+		}()
+		var wrong []*shapes.Small // elements of another type
+		var notPtr shapes.Small
+		switch op.Mode {
+		case "assignall":
+			s.db.AssignAll(rec0(), &wrong)
+		case "assign":
+			s.db.Search(rec0(), "Lid", ">=", 0).Assign(&wrong)
+		case "assignone":
+			s.db.Search(rec0(), "Lid", ">=", 0).AssignOne(&notPtr)
+		case "assignunique":
+			s.db.Search(rec0(), "Lid", ">=", 0).AssignUnique(&notPtr)
+		}
+	}()
+	if panicked {
+		s.stat("probe:assign-misuse-panicked")
+	} else {
+		s.stat("probe:assign-misuse-returned")
+	}
+	// a writer and a reader after the recovered panic
+	if err := s.db.Commit(rec0()); err != nil {
+		s.fail("read", "commit-failed", "Commit after a recovered Assign panic failed: %v", err)
+	}
+	s.lightReads("after-assign-misuse")
 }
